@@ -173,19 +173,7 @@ theorem step_adm_ok (s : State) (op : Op) : ∀ e ∈ (step s op).2.adm, AdmOK (
     · split at he <;> simp at he
   | observe => simp [step] at he
 
-/-! ## The two situations in which a step can leave a fitting first waiter asleep -/
-
-/-- The zero-weight gap of `Acquire`'s cancellation branch: the cancelled ticket is the front of the queue,
-`size = cur` (so the `isFront && s.size > s.cur` test skips `notifyWaiters`) and the waiter that becomes
-the front asks for weight 0 (which fits into zero free capacity). -/
-def ZeroGap (s : State) (id : Nat) : Prop :=
-  isFront s id = true ∧ s.size = s.cur ∧
-    match s.waiters.filter (fun w => !(w.id == id)) with
-    | [] => False
-    | w2 :: _ => w2.n = 0
-
-instance (s : State) (id : Nat) : Decidable (ZeroGap s id) := by
-  unfold ZeroGap; split <;> infer_instance
+/-! ## The one situation in which a step can leave a fitting first waiter asleep: the documented misuse -/
 
 /-- `Release(n)` with `n` larger than `cur`: the documented misuse. The Go code has already decremented
 `cur` when it panics and does not call `notifyWaiters`. -/
@@ -196,15 +184,8 @@ def OverRelease (s : State) : Op → Prop
 instance (s : State) (op : Op) : Decidable (OverRelease s op) := by
   unfold OverRelease; split <;> infer_instance
 
-def ZeroGapOp (s : State) : Op → Prop
-  | .cancel id => ZeroGap s id
-  | _ => False
-
-instance (s : State) (op : Op) : Decidable (ZeroGapOp s op) := by
-  unfold ZeroGapOp; split <;> infer_instance
-
-/-- A step that is neither of the two. -/
-def Clean (s : State) (op : Op) : Prop := ¬ OverRelease s op ∧ ¬ ZeroGapOp s op
+/-- A step that is not an over-release. -/
+def Clean (s : State) (op : Op) : Prop := ¬ OverRelease s op
 
 instance (s : State) (op : Op) : Decidable (Clean s op) := by unfold Clean; infer_instance
 
@@ -216,35 +197,27 @@ theorem noLost_of_waiters_eq {s s' : State} (h : NoLost s) (hw : s'.waiters = s.
   · trivial
   · rename_i w ws heq; rw [heq] at h; simp only at h; omega
 
-theorem stepCancel_noLost (s : State) (id : Nat) (h : NoLost s) (hz : ¬ ZeroGap s id) :
-    NoLost (stepCancel s id).1 := by
+/-- The cancellation section keeps the invariant, unconditionally: a cancelled front waiter triggers `notifyWaiters`
+whenever `size ≥ cur`, and with `size < cur` nothing (not even weight 0) fits. -/
+theorem stepCancel_noLost (s : State) (id : Nat) (h : NoLost s) : NoLost (stepCancel s id).1 := by
   unfold stepCancel
   split
-  · rename_i hany
-    by_cases hnf : (isFront s id = true ∧ s.size > s.cur)
+  · by_cases hnf : (isFront s id = true ∧ s.size ≥ s.cur)
     · simp only [hnf, and_self, if_true]; exact afterNotify_noLost _ _
     · simp only [hnf, if_false]
-      -- the removed element: either not the front, or front with size ≤ cur
       cases hw : s.waiters with
       | nil => simp [NoLost]
       | cons w ws =>
         by_cases hid : w.id = id
-        · -- front
-          have hfront : isFront s id = true := by simp [isFront, hw, hid]
-          have hle : ¬ s.size > s.cur := fun hgt => hnf ⟨hfront, hgt⟩
+        · have hfront : isFront s id = true := by simp [isFront, hw, hid]
+          have hlt : s.size < s.cur := by
+            have : ¬ s.size ≥ s.cur := fun hge => hnf ⟨hfront, hge⟩
+            omega
           unfold NoLost
           simp only
           split
           · trivial
-          · rename_i w2 rest heq
-            by_cases he : s.size = s.cur
-            · have : w2.n ≠ 0 := by
-                intro h0
-                apply hz
-                refine ⟨hfront, he, ?_⟩
-                rw [hw, heq]; exact h0
-              omega
-            · omega
+          · omega
         · have hfl : (List.filter (fun w => !(w.id == id)) (w :: ws)) = w :: List.filter (fun w => !(w.id == id)) ws := by
             simp [hid]
           unfold NoLost at h ⊢
@@ -294,7 +267,7 @@ theorem step_noLost (s : State) (op : Op) (h : NoLost s) (hc : Clean s op) : NoL
     · rename_i h1
       split
       · rename_i h2
-        exact absurd (show OverRelease s (.release n) from ⟨by omega, h2⟩) hc.1
+        exact absurd (show OverRelease s (.release n) from ⟨by omega, h2⟩) hc
       · exact afterNotify_noLost _ _
   | force n =>
     simp only [step, stepForce]
@@ -302,31 +275,12 @@ theorem step_noLost (s : State) (op : Op) (h : NoLost s) (hc : Clean s op) : NoL
     · exact h
     · exact noLost_of_waiters_eq h rfl (by simp only; omega) rfl
   | setSize n => exact afterNotify_noLost _ _
-  | cancel id => exact stepCancel_noLost s id h hc.2
+  | cancel id => exact stepCancel_noLost s id h
   | observe => exact h
-
-/-- The guard is exact for the cancellation gap: in that situation the invariant is lost. -/
-theorem zeroGap_breaks (s : State) (id : Nat) (hz : ZeroGap s id) : ¬ NoLost (stepCancel s id).1 := by
-  obtain ⟨hf, he, hm⟩ := hz
-  have hany : s.waiters.any (·.id == id) = true := by
-    unfold isFront at hf
-    cases hw : s.waiters with
-    | nil => rw [hw] at hf; simp at hf
-    | cons w ws => rw [hw] at hf; simp at hf; simp [hf]
-  unfold stepCancel
-  rw [if_pos hany]
-  have hng : ¬ (isFront s id = true ∧ s.size > s.cur) := by omega
-  simp only [hng, if_false]
-  unfold NoLost
-  simp only
-  split
-  · rename_i heq; simp only [heq] at hm
-  · rename_i w2 rest heq; simp only [heq] at hm; omega
-
 
 /-! ## Histories -/
 
-/-- Every step of the history is `Clean` in the state it is executed in. -/
+/-- No step of the history is an over-release (in the state it is executed in). -/
 def CleanRun (s : State) : List Op → Prop
   | [] => True
   | op :: ops => Clean s op ∧ CleanRun (step s op).1 ops
@@ -437,7 +391,7 @@ theorem step_sorted (s : State) (op : Op) (h : Sorted s) : Sorted (step s op).1 
     have hf : Sorted { s with waiters := s.waiters.filter (fun w => !(w.id == id)) } :=
       sorted_of_sublist h List.filter_sublist (Nat.le_refl _)
     split
-    · by_cases hnf : (isFront s id = true ∧ s.size > s.cur)
+    · by_cases hnf : (isFront s id = true ∧ s.size ≥ s.cur)
       · simp only [hnf, and_self, if_true]; exact sorted_afterNotify _ _ hf
       · simp only [hnf, if_false]; exact hf
     · split
@@ -510,7 +464,7 @@ theorem step_no_overtaking (s : State) (op : Op) (h : Sorted s) :
     have hf : Sorted { s with waiters := s.waiters.filter (fun w => !(w.id == id)) } :=
       sorted_of_sublist h List.filter_sublist (Nat.le_refl _)
     split
-    · by_cases hnf : (isFront s id = true ∧ s.size > s.cur)
+    · by_cases hnf : (isFront s id = true ∧ s.size ≥ s.cur)
       · simp only [hnf, and_self, if_true]; exact afterNotify_no_overtaking _ _ hf
       · simp only [hnf, if_false]; intro a ha; simp at ha
     · split <;> (intro a ha; simp at ha)
@@ -566,7 +520,7 @@ theorem step_chain (s : State) (op : Op) : Chain (base s op) (step s op).2.adm (
   | cancel id =>
     simp only [step, stepCancel, base]
     split
-    · by_cases hnf : (isFront s id = true ∧ s.size > s.cur)
+    · by_cases hnf : (isFront s id = true ∧ s.size ≥ s.cur)
       · simp only [hnf, and_self, if_true]
         exact afterNotify_chain { s with waiters := s.waiters.filter (fun w => !(w.id == id)) } .err
       · simp only [hnf, if_false]; simp [Chain]
@@ -650,7 +604,7 @@ theorem step_queue (s : State) (op : Op) :
   | cancel id =>
     simp only [step, stepCancel]
     split
-    · by_cases hnf : (isFront s id = true ∧ s.size > s.cur)
+    · by_cases hnf : (isFront s id = true ∧ s.size ≥ s.cur)
       · simp only [hnf, and_self, if_true]; exact notify_prefix _ _ _
       · simp only [hnf, if_false]; simp
     · rename_i hany
@@ -710,7 +664,7 @@ theorem step_waiters_mem (s : State) (op : Op) :
   | cancel id =>
     simp only [step, stepCancel] at hw
     split at hw
-    · by_cases hnf : (isFront s id = true ∧ s.size > s.cur)
+    · by_cases hnf : (isFront s id = true ∧ s.size ≥ s.cur)
       · simp only [hnf, and_self, if_true] at hw
         have := (afterNotify_waiters_sublist _ _).subset hw
         exact Or.inl (List.filter_sublist.subset this)
@@ -718,48 +672,6 @@ theorem step_waiters_mem (s : State) (op : Op) :
         exact Or.inl (List.filter_sublist.subset hw)
     · split at hw <;> exact Or.inl hw
   | observe => exact Or.inl hw
-
-/-- All queued weights are positive. -/
-def PosQueue (s : State) : Prop := ∀ w ∈ s.waiters, 0 < w.n
-
-theorem posQueue_step (s : State) (op : Op) (h : PosQueue s) (hop : op ≠ .acquire 0) : PosQueue (step s op).1 := by
-  intro w hw
-  rcases step_waiters_mem s op w hw with hm | ⟨n, hn, h0, hw⟩
-  · exact h w hm
-  · subst hw; subst hn
-    have : n ≠ 0 := fun h => hop (by rw [h])
-    simp only; omega
-
-theorem not_zeroGap_of_posQueue (s : State) (id : Nat) (h : PosQueue s) : ¬ ZeroGap s id := by
-  intro ⟨_, _, hm⟩
-  split at hm
-  · exact hm
-  · rename_i w2 rest heq
-    have hmem : w2 ∈ s.waiters := List.filter_sublist.subset (by rw [heq]; exact List.mem_cons_self ..)
-    have := h w2 hmem
-    omega
-
-/-- No step of the history is an over-release. -/
-def NoOverRelease (s : State) : List Op → Prop
-  | [] => True
-  | op :: ops => ¬ OverRelease s op ∧ NoOverRelease (step s op).1 ops
-
-instance : (s : State) → (ops : List Op) → Decidable (NoOverRelease s ops)
-  | _, [] => isTrue trivial
-  | s, op :: ops =>
-    have := instDecidableNoOverRelease (step s op).1 ops
-    by unfold NoOverRelease; infer_instance
-
-theorem cleanRun_of_pos (s : State) (ops : List Op) (hq : PosQueue s) (hp : ∀ op ∈ ops, op ≠ .acquire 0)
-    (hr : NoOverRelease s ops) : CleanRun s ops := by
-  induction ops generalizing s with
-  | nil => trivial
-  | cons op ops ih =>
-    refine ⟨⟨hr.1, ?_⟩, ih _ (posQueue_step s op hq (hp op (List.mem_cons_self ..)))
-      (fun o ho => hp o (List.mem_cons_of_mem _ ho)) hr.2⟩
-    cases op with
-    | cancel id => exact not_zeroGap_of_posQueue s id hq
-    | _ => simp [ZeroGapOp]
 
 /-! ## FIFO along histories -/
 
@@ -877,7 +789,7 @@ theorem step_magnitude (s : State) (op : Op) :
     simp only [step, stepCancel, accAmt, relAmt]
     have hq := qsum_filter_le (fun w => !(w.id == id)) s.waiters
     split
-    · by_cases hnf : (isFront s id = true ∧ s.size > s.cur)
+    · by_cases hnf : (isFront s id = true ∧ s.size ≥ s.cur)
       · simp only [hnf, and_self, if_true]
         have h1 := afterNotify_total { s with waiters := s.waiters.filter (fun w => !(w.id == id)) } .err
         have h2 := afterNotify_cur_ge { s with waiters := s.waiters.filter (fun w => !(w.id == id)) } .err
@@ -942,7 +854,7 @@ theorem step_doomed_mem (s : State) (op : Op) :
   | cancel id =>
     simp only [step, stepCancel] at ht
     split at ht
-    · by_cases hnf : (isFront s id = true ∧ s.size > s.cur)
+    · by_cases hnf : (isFront s id = true ∧ s.size ≥ s.cur)
       · simp only [hnf, and_self, if_true] at ht; exact Or.inl ht
       · simp only [hnf, if_false] at ht; exact Or.inl ht
     · split at ht
@@ -973,7 +885,7 @@ theorem step_next_ge (s : State) (op : Op) : s.next ≤ (step s op).1.next := by
   | cancel id =>
     simp only [step, stepCancel]
     split
-    · by_cases hnf : (isFront s id = true ∧ s.size > s.cur)
+    · by_cases hnf : (isFront s id = true ∧ s.size ≥ s.cur)
       · simp only [hnf, and_self, if_true]; simp [afterNotify]
       · simp only [hnf, if_false]; simp
     · split <;> simp
@@ -1042,7 +954,7 @@ theorem blocked_leaves_once (s : State) (op : Op) (t : Nat) (hb : Blocked s t) (
     refine ⟨rfl, ?_, cancel_not_admitted s t⟩
     simp only [step, stepCancel]
     split
-    · by_cases hnf : (isFront s t = true ∧ s.size > s.cur)
+    · by_cases hnf : (isFront s t = true ∧ s.size ≥ s.cur)
       · simp only [hnf, and_self, if_true]; rfl
       · simp only [hnf, if_false]
     · rename_i hany
@@ -1129,7 +1041,7 @@ theorem blocked_leaves_once (s : State) (op : Op) (t : Nat) (hb : Blocked s t) (
         have hne : id ≠ t := fun h => hop (by rw [h])
         simp only [step, stepCancel]
         split
-        · by_cases hnf : (isFront s id = true ∧ s.size > s.cur)
+        · by_cases hnf : (isFront s id = true ∧ s.size ≥ s.cur)
           · simp only [hnf, and_self, if_true]; exact hd
           · simp only [hnf, if_false]; exact hd
         · split
@@ -1211,7 +1123,7 @@ theorem failed_acquire_unchanged (s : State) (n : Int) (h : WF s)
           simp [List.filter_append, hfil]
         simp only [hfil2]
         by_cases hnf : (isFront { s with waiters := s.waiters ++ [({ id := s.next, n := n.toNat } : Waiter)], next := s.next + 1 } s.next = true
-            ∧ s.size > s.cur)
+            ∧ s.size ≥ s.cur)
         · rw [if_pos hnf]
           -- it was the front: the queue was empty, notifyWaiters has nothing to do
           have hemp : s.waiters = [] := by
@@ -1225,88 +1137,6 @@ theorem failed_acquire_unchanged (s : State) (n : Int) (h : WF s)
           simp [afterNotify, hemp, notify]
         · rw [if_neg hnf]
           simp
-
-
-/-! ## The suggested repair of the cancellation branch -/
-
-/-- `stepCancel` with the test `isFront && s.size >= s.cur` (the suggested one-character fix). -/
-def stepCancelFixed (s : State) (id : Nat) : State × Out :=
-  if s.waiters.any (·.id == id) then
-    let front := isFront s id
-    let s' := { s with waiters := s.waiters.filter (fun w => !(w.id == id)) }
-    if front ∧ s'.size ≥ s'.cur then afterNotify s' .err
-    else (s', ⟨.err, []⟩)
-  else if s.doomed.contains id then
-    ({ s with doomed := s.doomed.filter (fun t => !(t == id)) }, ⟨.err, []⟩)
-  else (s, ⟨.noop, []⟩)
-
-def stepFixed (s : State) : Op → State × Out
-  | .cancel id => stepCancelFixed s id
-  | op => step s op
-
-def execFixed (s : State) : List Op → State
-  | [] => s
-  | op :: ops => execFixed (stepFixed s op).1 ops
-
-def NoOverReleaseFixed (s : State) : List Op → Prop
-  | [] => True
-  | op :: ops => ¬ OverRelease s op ∧ NoOverReleaseFixed (stepFixed s op).1 ops
-
-theorem stepCancelFixed_noLost (s : State) (id : Nat) (h : NoLost s) : NoLost (stepCancelFixed s id).1 := by
-  unfold stepCancelFixed
-  split
-  · by_cases hnf : (isFront s id = true ∧ s.size ≥ s.cur)
-    · simp only [hnf, and_self, if_true]; exact afterNotify_noLost _ _
-    · simp only [hnf, if_false]
-      cases hw : s.waiters with
-      | nil => simp [NoLost]
-      | cons w ws =>
-        by_cases hid : w.id = id
-        · have hfront : isFront s id = true := by simp [isFront, hw, hid]
-          have hlt : s.size < s.cur := by
-            have : ¬ s.size ≥ s.cur := fun hge => hnf ⟨hfront, hge⟩
-            omega
-          unfold NoLost
-          simp only
-          split
-          · trivial
-          · omega
-        · have hfl : (List.filter (fun w => !(w.id == id)) (w :: ws)) = w :: List.filter (fun w => !(w.id == id)) ws := by
-            simp [hid]
-          unfold NoLost at h ⊢
-          rw [hw] at h
-          simp only [hfl]
-          exact h
-  · split
-    · exact noLost_of_waiters_eq h rfl (Int.le_refl _) rfl
-    · exact h
-
-theorem stepFixed_noLost (s : State) (op : Op) (h : NoLost s) (hr : ¬ OverRelease s op) :
-    NoLost (stepFixed s op).1 := by
-  cases op with
-  | cancel id => exact stepCancelFixed_noLost s id h
-  | acquire n => exact step_noLost s _ h ⟨hr, by simp [ZeroGapOp]⟩
-  | tryAcquire n => exact step_noLost s _ h ⟨hr, by simp [ZeroGapOp]⟩
-  | release n => exact step_noLost s _ h ⟨hr, by simp [ZeroGapOp]⟩
-  | force n => exact step_noLost s _ h ⟨hr, by simp [ZeroGapOp]⟩
-  | setSize n => exact step_noLost s _ h ⟨hr, by simp [ZeroGapOp]⟩
-  | observe => exact step_noLost s _ h ⟨hr, by simp [ZeroGapOp]⟩
-
-theorem execFixed_noLost (s : State) (ops : List Op) (h : NoLost s) (hr : NoOverReleaseFixed s ops) :
-    NoLost (execFixed s ops) := by
-  induction ops generalizing s with
-  | nil => exact h
-  | cons op ops ih => exact ih _ (stepFixed_noLost s op h hr.1) hr.2
-
-/-- The repaired branch agrees with the original one except in the gap. -/
-theorem stepCancelFixed_eq (s : State) (id : Nat) (h : ¬ (isFront s id = true ∧ s.size = s.cur)) :
-    stepCancelFixed s id = stepCancel s id := by
-  unfold stepCancelFixed stepCancel
-  have : (isFront s id = true ∧ s.size ≥ s.cur) ↔ (isFront s id = true ∧ s.size > s.cur) := by
-    constructor
-    · intro ⟨a, b⟩; exact ⟨a, by by_cases he : s.size = s.cur; exact absurd ⟨a, he⟩ h; omega⟩
-    · intro ⟨a, b⟩; exact ⟨a, by omega⟩
-  simp only [this]
 
 
 /-- `size` is only ever written by `SetSize`. -/
@@ -1335,11 +1165,70 @@ theorem step_size (s : State) (op : Op) :
   | cancel id =>
     simp only [step, stepCancel]
     split
-    · by_cases hnf : (isFront s id = true ∧ s.size > s.cur)
+    · by_cases hnf : (isFront s id = true ∧ s.size ≥ s.cur)
       · simp only [hnf, and_self, if_true]; rfl
       · simp only [hnf, if_false]
     · split <;> rfl
   | observe => rfl
 
+/-! ## Historical: the cancellation branch before the repair 616a0ec3 (`isFront && s.size > s.cur`) -/
+
+/-- `stepCancel` as the code was before the repair: `notifyWaiters` only if `size > cur` (strictly). -/
+def stepCancelStrictGt (s : State) (id : Nat) : State × Out :=
+  if s.waiters.any (·.id == id) then
+    let front := isFront s id
+    let s' := { s with waiters := s.waiters.filter (fun w => !(w.id == id)) }
+    if front ∧ s'.size > s'.cur then afterNotify s' .err
+    else (s', ⟨.err, []⟩)
+  else if s.doomed.contains id then
+    ({ s with doomed := s.doomed.filter (fun t => !(t == id)) }, ⟨.err, []⟩)
+  else (s, ⟨.noop, []⟩)
+
+def stepStrictGt (s : State) : Op → State × Out
+  | .cancel id => stepCancelStrictGt s id
+  | op => step s op
+
+def execStrictGt (s : State) : List Op → State
+  | [] => s
+  | op :: ops => execStrictGt (stepStrictGt s op).1 ops
+
+/-- The zero-weight gap of the old branch: the cancelled ticket is the front of the queue, `size = cur` (so the strict
+test skipped `notifyWaiters`) and the waiter that becomes the front asks for weight 0 (which fits into zero capacity). -/
+def ZeroGap (s : State) (id : Nat) : Prop :=
+  isFront s id = true ∧ s.size = s.cur ∧
+    match s.waiters.filter (fun w => !(w.id == id)) with
+    | [] => False
+    | w2 :: _ => w2.n = 0
+
+instance (s : State) (id : Nat) : Decidable (ZeroGap s id) := by
+  unfold ZeroGap; split <;> infer_instance
+
+/-- In the gap the old branch always lost the invariant. -/
+theorem zeroGap_breaks_strictGt (s : State) (id : Nat) (hz : ZeroGap s id) : ¬ NoLost (stepCancelStrictGt s id).1 := by
+  obtain ⟨hf, he, hm⟩ := hz
+  have hany : s.waiters.any (·.id == id) = true := by
+    unfold isFront at hf
+    cases hw : s.waiters with
+    | nil => rw [hw] at hf; simp at hf
+    | cons w ws => rw [hw] at hf; simp at hf; simp [hf]
+  unfold stepCancelStrictGt
+  rw [if_pos hany]
+  have hng : ¬ (isFront s id = true ∧ s.size > s.cur) := by omega
+  simp only [hng, if_false]
+  unfold NoLost
+  simp only
+  split
+  · rename_i heq; simp only [heq] at hm
+  · rename_i w2 rest heq; simp only [heq] at hm; omega
+
+/-- The old and the repaired branch agree except when the cancelled ticket is the front and `size = cur`. -/
+theorem stepCancelStrictGt_eq (s : State) (id : Nat) (h : ¬ (isFront s id = true ∧ s.size = s.cur)) :
+    stepCancelStrictGt s id = stepCancel s id := by
+  unfold stepCancelStrictGt stepCancel
+  have : (isFront s id = true ∧ s.size > s.cur) ↔ (isFront s id = true ∧ s.size ≥ s.cur) := by
+    constructor
+    · intro ⟨a, b⟩; exact ⟨a, by omega⟩
+    · intro ⟨a, b⟩; exact ⟨a, by by_cases he : s.size = s.cur; exact absurd ⟨a, he⟩ h; omega⟩
+  simp only [this]
 
 end TLVerif.Sema
